@@ -278,9 +278,11 @@ func Spaces(tier string, forC06 bool, repo string) []Space {
 		StructSpace{Label: "struct1-full", Alpha: FullStatements(ext), N: 1, K: k1, Ext: ext},
 		StructSpace{Label: "struct2-reduced", Alpha: ReducedStatements(ext), N: 2, K: k2, Ext: ext},
 	}
-	if thorough {
-		sp = append(sp, StructSpace{Label: "struct3-small", Alpha: SmallStatements(), N: 3, K: 1, Ext: ext})
+	k3 := 1
+	if !thorough && !forC06 {
+		k3 = 0 // canonical layout only: the point of this space in the quick tier is the statement sequences
 	}
+	sp = append(sp, StructSpace{Label: "struct3-small", Alpha: SmallStatements(), N: 3, K: k3, Ext: ext})
 	if forC06 {
 		return sp
 	}
